@@ -213,9 +213,11 @@ func (f *STFS) Initialize(rootProposal string, rootPerm os.FileMode) (root strin
 
 	existingRoot, err := f.metadata.Metadata.GetRootPath(context.Background())
 	if err == config.ErrNoRootDirectory {
-		mkdirRoot := func() (string, error) {
-			if err := f.readOps.GetBackend().CloseReader(); err != nil {
-				return "", err
+		mkdirRoot := func(closeReader bool) (string, error) {
+			if closeReader {
+				if err := f.readOps.GetBackend().CloseReader(); err != nil {
+					return "", err
+				}
 			}
 
 			if f.readOnly {
@@ -232,7 +234,7 @@ func (f *STFS) Initialize(rootProposal string, rootPerm os.FileMode) (root strin
 
 		reader, err := f.readOps.GetBackend().GetReader()
 		if err != nil {
-			return mkdirRoot()
+			return mkdirRoot(false) // The drive is not held if the reader could not be opened
 		}
 
 		if err := recovery.Index(
@@ -257,7 +259,7 @@ func (f *STFS) Initialize(rootProposal string, rootPerm os.FileMode) (root strin
 
 			f.onHeader,
 		); err != nil {
-			return mkdirRoot()
+			return mkdirRoot(true)
 		}
 
 		if err := f.readOps.GetBackend().CloseReader(); err != nil {
